@@ -76,6 +76,10 @@ def run(shard, tier, acc):
                 r = S.run_guesser(td, argv, keys=(j, script, T))
                 acc.evals += 1
                 case = {'layer': 'status', 'spec': i, 'script': script, 'session': name, 'clock': T, 'after_guess': j}
+                if getattr(r, 'kb_blocked', False):
+                    # the request needed a lock the generating thread holds at this point: it would be served later, which is another position
+                    acc.count('requests_that_would_have_waited_for_a_lock')
+                    continue
                 if r.exc:
                     acc.fail(case, 'status request %r after guess %d (%s, clock %r s) made the run fail: %s' % (script, j, name, T, r.exc.strip().splitlines()[-1]), 'status-crash')
                     continue
@@ -151,6 +155,9 @@ def run_lines(shard, tier, acc):
             acc.evals += 1
             acc.transitions += 1
             case = {'layer': 'lines', 'spec': i, 'script': script, 'session': name, 'line_boundary': n}
+            if getattr(r, 'kb_blocked', False):
+                acc.count('requests_that_would_have_waited_for_a_lock')
+                continue
             if script == ['q'] and not r.exc:
                 # a quit that arrives at this line boundary: the stream stops at a legal place, the session is saved, and the saved session
                 # owes exactly what is missing - nothing of the uninterrupted stream may fall between the two runs
